@@ -8,6 +8,7 @@ CONSTANTS
   MaxH = 3
   ResetProvides = TRUE
   TakeEmptiesSlot = TRUE
+  KeyRaceDev = TRUE
   DropReturnsQueued = TRUE
   MaxLen = 16
   AllowClose = TRUE
